@@ -3,8 +3,8 @@ import os, json
 from common import *
 
 
-def run_codec(work, tier, res, faults):
-    n = 40 if tier == "quick" else 4000
+def run_codec(work, tier, res, faults, mult=1):
+    n = (40 if tier == "quick" else 4000) * mult
     sc = {"n": n, "seed": seed() * 17 + 3, "stride": 1 if faults else 50, "fault_sources": (4 if tier == "quick" else 200) if faults else 1,
           "hang_file": work.path("hang.txt")}
     try:
@@ -40,6 +40,20 @@ def check_roundtrip(prop, tier):
             if s[key]:
                 res.violation("%d values do not round-trip through the %s form as the specification says" % (s[key], "text" if prop == "C16" else "JSON"),
                               {"driver": "codec", "line": first_line(h, s[first])})
+            dkey, dfirst = ("drifttext", "firstdrifttext") if prop == "C16" else ("driftjson", "firstdriftjson")
+            if s[dkey] and not res.violations:
+                # the library's encoding is not letter for letter the format model's: the injectivity result does
+                # not transfer.  ESCALATION: many more values through the real round trip, judged by the property alone.
+                dl = first_line(h, s[dfirst])
+                h2, s2 = run_codec(work, tier, res, faults=False, mult=10 if tier == "quick" else 3)
+                if s2:
+                    res.add(values_round_tripped=s2["texts"] if prop == "C16" else s2["jsons"], escalation_values=s2["values"])
+                    if s2[key]:
+                        res.violation("%d values do not round-trip through the %s form (escalation after format drift)" % (s2[key], "text" if prop == "C16" else "JSON"),
+                                      {"driver": "codec", "line": first_line(h2, s2[first])})
+                res.downgrade("%d encodings of type %s differ from the format model, first: %s" % (s[dkey], dl.get("ty"), str(dl.get("text" if prop == "C16" else "json"))[:120]),
+                              res.cov.get("values_round_tripped", 0), res.cov.get("values_round_tripped", 0),
+                              "values of every codec type (boundary values included) printed and parsed back by the library; equality judged on the recorded field-by-field projection")
             for l in read_trace_lines(h["trace"])[:400:97]:
                 if l["k"] == "c":
                     res.sample({"ty": l["ty"], "text": l.get("text", "")[:200], "json": l.get("json", "")[:200]})
